@@ -7,6 +7,7 @@ import TapkeeVerif.Proofs.CoverPrune
 import TapkeeVerif.Proofs.CoverRefute
 import TapkeeVerif.Proofs.CoverFinal
 import TapkeeVerif.Proofs.CoverBuildCreate
+import TapkeeVerif.Proofs.CoverBuildFuel
 /-!
 # Property C02 — all three neighbour searches return exactly the k nearest other samples
 
@@ -332,6 +333,20 @@ theorem cover_tree_end_to_end {δ : Nat → Nat → K} (hm : IsMetric δ) {getSc
     exact hwf.1.2
   exact cover_tree_exact hm hk ls hperm hwf (children_ne_nil_of_leaves (by omega)) h hr hlt hl
 
+/-- **`batchCreate_fuel_suffices`** (the model reaches no error state and its fuel suffices) : the construction
+    answers — no `last()` / `decr()` of an empty `dist` stack, no negative scale, none of the three counters (recursion
+    depth, child loop, top-scale loop) runs out — for every (pseudo-)metric and every non-empty list of points, when
+    the scale functions bracket the positive distances `d` between the points (`ScalesOk`: `distOfScale sLow < d ≤
+    distOfScale sTop`, `sLow ≤ getScale d ≤ sTop`; evaluated on every run on the values the real code computes, and
+    the driver runs the model with exactly this fuel) and the fuel is at least `(sTop - sLow) + 2`.  Termination of
+    the real recursion is this property of `pow` / `log`: it descends one scale per level and stops below the
+    smallest positive distance. -/
+theorem batchCreate_fuel_suffices {δ : Nat → Nat → K} (hm : IsMetric δ) {getScale : K → Int} {distOfScale : Int → K}
+    (hpos : ∀ s, 0 ≤ distOfScale s) {points : List Nat} (hne : points ≠ []) {sLow sTop : Int}
+    (hsc : ScalesOk δ getScale distOfScale points sLow sTop) {fuel : Nat} (hfuel : (sTop - sLow).toNat + 2 ≤ fuel) :
+    ∃ t ls, batchCreate δ getScale distOfScale fuel points = some (t, ls) :=
+  batchCreate_total hm.self hm.nonneg hpos hne hsc hfuel
+
 /-- **F-COVER-TOP, Lean-checked**: with the top scale `get_scale(max_dist)` taken as it is (the code before the
     repair) the construction drops samples as soon as `dist_of_scale(get_scale(d)) < d` — witness: two samples at
     distance 3 and scale functions with `distOfScale (getScale 3) = 2` (the real functions do this by rounding at
@@ -381,6 +396,12 @@ theorem ex6_build :
     CoverBuild.batchCreate ex6δ ex6Gs ex6Ds 20 (List.range 6) = some (ex6Tree, 100) ∧
       batchQuery ex6δ id 2 100 ex6Tree = some [[5, 5, 4, 3], [4, 4, 3], [3, 4, 3], [2, 1, 2], [1, 1, 2], [0, 0, 1]] :=
   ⟨by rfl, by decide +kernel⟩
+
+/-- the scale functions bracket the positive distances of the six samples: `sLow = -1`, `sTop = 12`, so fuel 15
+    suffices by `batchCreate_fuel_suffices` -/
+example : ∃ t ls, CoverBuild.batchCreate ex6δ ex6Gs ex6Ds 15 (List.range 6) = some (t, ls) :=
+  batchCreate_fuel_suffices ex6δ_metric (fun _ => Int.natCast_nonneg _) (by decide)
+    (sLow := -1) (sTop := 12) (by unfold CoverBuild.ScalesOk; decide) (by decide)
 
 /-- hence the tree is well formed (by the theorem, not by evaluation) … -/
 example : wfTree ex6δ 6 ex6Tree = true :=
